@@ -20,6 +20,7 @@ pub mod c04;
 pub mod c05;
 pub mod c17;
 pub mod c06;
+pub mod c07;
 
 pub fn run(prop: &str, rng: &mut R, out: &mut Out, extra: &[String]) -> bool {
     let _ = extra;
@@ -43,6 +44,7 @@ pub fn run(prop: &str, rng: &mut R, out: &mut Out, extra: &[String]) -> bool {
         "C05" => c05::run(rng, out),
         "C17" => c17::run(rng, out),
         "C06" => c06::run(rng, out),
+        "C07" => c07::run(rng, out),
         _ => return false,
     }
     true
